@@ -277,6 +277,7 @@ def report(prop, tier, seed, mod, hmap, results, wall):
     overrides = set()
     samples = []
     validated = 0
+    fp_probes = 0
     labels = {}
     for r in results:
         st = r.get("stats") or {}
@@ -287,6 +288,7 @@ def report(prop, tier, seed, mod, hmap, results, wall):
         functions.update(r.get("functions") or {})
         overrides.update(r.get("np_overrides") or [])
         validated += r.get("witness_validated", 0)
+        fp_probes += r.get("fp_probes", 0)
         for s in r.get("samples") or []:
             if len(samples) < 8:
                 samples.append(s)
@@ -306,6 +308,7 @@ def report(prop, tier, seed, mod, hmap, results, wall):
             "transitions": tot["path_steps"],
             "forks_decided_by_solver": tot["branch_decisions"],
             "traces_validated_against_impl": validated,
+            "of_which_also_with_non_representable_inputs": fp_probes,
             "samples": samples,
             "exhaustive": False,
             "obligations": tot["claims"],
